@@ -115,7 +115,7 @@ impl World for C40 {
     }
     fn budget(&self, tier: Tier) -> (u64, u64) {
         match tier {
-            Tier::Quick => (400, 45),
+            Tier::Quick => (1000, 45),
             Tier::Thorough => (16_000, 900),
         }
     }
